@@ -173,6 +173,13 @@ func (ip *Interp) constArgs(args []ssa.Value) []iv {
 }
 
 func (ip *Interp) Call(fn *ssa.Function, args []iv) (res iv, err error) {
+	return ip.callIn(fn, args, nil)
+}
+
+// callIn folds a call. A spliced helper (inl.go) shares the caller's
+// environment: its parameters are the caller's argument values and the values
+// it computes are used by the caller directly.
+func (ip *Interp) callIn(fn *ssa.Function, args []iv, shared map[ssa.Value]iv) (res iv, err error) {
 	if fn == nil || fn.Blocks == nil {
 		return nil, fmt.Errorf("cannot fold a call to a function without body")
 	}
@@ -182,6 +189,9 @@ func (ip *Interp) Call(fn *ssa.Function, args []iv) (res iv, err error) {
 		}
 	}()
 	env := map[ssa.Value]iv{}
+	if shared != nil {
+		env = shared
+	}
 	for i, p := range fn.Params {
 		if i < len(args) {
 			env[p] = args[i]
@@ -420,7 +430,13 @@ func (ip *Interp) call(env map[ssa.Value]iv, x *ssa.Call) iv {
 	for i, a := range cc.Args {
 		args[i] = ip.val(env, a)
 	}
-	r, err := ip.Call(fn, args)
+	var shared map[ssa.Value]iv
+	for _, m := range loadedModules {
+		if m.helperSite[fn] == x {
+			shared = env
+		}
+	}
+	r, err := ip.callIn(fn, args, shared)
 	if err != nil {
 		panic(err.Error())
 	}
